@@ -553,6 +553,20 @@ def mon_C09(t):
 def mon_C10(t):
     out = []
     shards = t.cfg["shards"]
+    # liveness: "as the clock advances and sweeps keep occurring every expired key is eventually removed": a key that
+    # stays stored through 2 * shards completed sweeps after its expiry passed is being starved
+    overdue = {}
+    for i, r in enumerate(t.recs):
+        if r["skipped"] or r["ev"].split()[0] != "sweep" or r["roles"]["sweeper"] != "alive":
+            continue
+        now = t.now_before[i]
+        sa = t.store_after(i)
+        for k, ent in sa.items():
+            if ent[3] != -1 and ent[3] < now:
+                overdue[(k, ent[2], ent[3])] = overdue.get((k, ent[2], ent[3]), 0) + 1
+                if overdue[(k, ent[2], ent[3])] == 2 * shards:
+                    out.append(fail(t, i, "sweeper-starves-shards", "key %d (expiry %d) is still stored after %d sweeps past its expiry: its shard %d is never visited" % (
+                        k, ent[3], 2 * shards, (ent[3] // SEC) % shards)))
     for i, r in enumerate(t.recs):
         if r["skipped"] or r["ev"].split()[0] != "sweep":
             continue
